@@ -59,6 +59,7 @@ NWORKERS = min(16, os.cpu_count() or 4)
 BOOT_LIMIT = 300.0
 ACT_LIMIT = 120.0
 CALL_LIMIT = 2.0
+DEEP_CAP = 24000       # length-3 behaviours replayed in the thorough tier
 
 # --------------------------------------------------------------------------
 # Python mirror of SecureOps!PermittedOs.  Used only to *classify* natives as
@@ -559,7 +560,8 @@ ARG_TUPLES = [
 def task_classify(name):
     """Measure one native: secure attribute and what it does to the OS when
     invoked directly (in front of the gate) in a non-secure interpreter."""
-    it = make_interp(False, False)
+    with open_gate():                  # the measurement must not depend on the gate
+        it = make_interp(False, False)
     if name == "run":
         func = it.base_environment.map.get("run")
         if func is None and hasattr(F, "FuncRun"):
@@ -615,8 +617,9 @@ def module_names():
     stems = sorted(f[:-4] for f in os.listdir(MODDIR) if f.endswith(".ckl"))
     canon = {}
     try:
-        it = Interpreter(False, False)
-        lst = it.interpret("require Sys; Sys->checkerlang_modules", "c09")
+        with open_gate():
+            it = Interpreter(False, False)
+            lst = it.interpret("require Sys; Sys->checkerlang_modules", "c09")
         for v in lst.value:
             canon[v.value.lower()] = v.value
     except Exception:  # noqa: BLE001
@@ -1065,8 +1068,21 @@ class Pool:
                 raise MachineryError("worker timeout")
         return out
 
+    def warm(self, n=NWORKERS):
+        """Fork all workers now, while this process is still small: the workers
+        fork once per replayed action and that costs in proportion to what they
+        inherited."""
+        for f in [self.ex.submit(_warm, 0.4) for _ in range(n)]:
+            f.result(timeout=600)
+
     def close(self):
         self.ex.shutdown(wait=True, cancel_futures=True)
+
+
+def _warm(t):
+    import time
+    time.sleep(t)
+    return os.getpid()
 
 
 def group_edges(edges, chunk=80):
@@ -1180,7 +1196,8 @@ def extract(root, tier, seed):
 
 def pick_bootsym(side):
     """A public symbol of the boot module (for `require M import [sym as flag]`)."""
-    it = Interpreter(False, False)
+    with open_gate():
+        it = Interpreter(False, False)
     env = it.base_environment.modules.get(side["bootmod"])
     syms = sorted(s for s in (env.getLocalSymbols() if env else []) if not s.startswith("_"))
     if not syms:
@@ -1307,6 +1324,18 @@ def _t(msg, t0=[None]):
 
 def _run(run, quick, root):
     _t("start")
+    pool = Pool(os.path.join(root, "r"))                       # replays (fork per action)
+    cpool = Pool(os.path.join(root, "c"), max(2, NWORKERS // 2))   # call sweeps (may grow large)
+    try:
+        pool.warm()
+        cpool.warm(max(2, NWORKERS // 2))
+        _run2(run, quick, root, pool, cpool)
+    finally:
+        pool.close()
+        cpool.close()
+
+
+def _run2(run, quick, root, pool, cpool):
     data, side = extract(os.path.join(root, "x"), run.tier, run.seed)
     side["bootsym"] = pick_bootsym(side)
     info = side["info"]
@@ -1377,6 +1406,23 @@ def _run(run, quick, root):
             edges.append(e)
     if len(edges) < 10:
         raise MachineryError("TLC exported no behaviours")
+    exported = len(edges)
+    # TLC checks every behaviour; the replay takes all of length <= 2 and, when
+    # there are more than DEEP_CAP longer ones, a seeded sample of whole prefix
+    # groups of them
+    deep = [e for e in edges if len(e["hist"]) >= 3]
+    if len(deep) > DEEP_CAP:
+        bypre = {}
+        for e in deep:
+            bypre.setdefault((e["sec"], e["leg"], json.dumps(e["hist"][:-1], sort_keys=True)), []).append(e)
+        keys = sorted(bypre)
+        random.Random(run.seed).shuffle(keys)
+        chosen = []
+        for k in keys:
+            if len(chosen) >= DEEP_CAP:
+                break
+            chosen += bypre[k]
+        edges = [e for e in edges if len(e["hist"]) < 3] + chosen
     run.sample({"EDGE": {"sec": edges[-1]["sec"], "leg": edges[-1]["leg"],
                          "hist": [act_str(side, a) for a in edges[-1]["hist"]],
                          "post_session": edges[-1]["post"]["session"][:3]}})
@@ -1386,8 +1432,8 @@ def _run(run, quick, root):
     wdata = {"classmap": side["classmap"], "forbidden": side["forbidden"], "ids": side["ids"],
              "natives": data["natives"], "probe": side["probe"], "bootmod": side["bootmod"],
              "bootsym": side["bootsym"], "boot_reach": boot_reach}
-    pool = Pool(os.path.join(root, "r"))
-    try:
+    edges_src.out = res.out = ""           # the TLC output is no longer needed
+    if True:
         # the call sweeps contain the few slow invocations: start them first
         jobs = []
         for leg in (True, False):
@@ -1395,11 +1441,11 @@ def _run(run, quick, root):
             for m in side["modules"]:
                 jobs.append((wdata, leg, "qual", m, quick))
                 jobs.append((wdata, leg, "unq", m, quick))
-        f_calls = [pool.ex.submit(task_calls, j) for j in jobs]
+        f_calls = [cpool.ex.submit(task_calls, j) for j in jobs]
         groups = group_edges(edges)
         f_edges = [pool.ex.submit(task_edges, (wdata,) + g) for g in groups]
         f_gate = pool.ex.submit(task_gate, wdata)
-        f_reqs = [pool.ex.submit(task_requires, (wdata, leg)) for leg in (False, True)]
+        f_reqs = [cpool.ex.submit(task_requires, (wdata, leg)) for leg in (False, True)]
 
         def get(f):
             try:
@@ -1412,8 +1458,6 @@ def _run(run, quick, root):
         call_results = [get(f) for f in f_calls]
         req_results = [get(f) for f in f_reqs]
         _t("calls done")
-    finally:
-        pool.close()
 
     events, metas = [], []
     boot_failed = []
@@ -1518,7 +1562,8 @@ def _run(run, quick, root):
     run.cov["model_counterexample"] = model_violated
     run.cov["binding_B"] = {"symbols": nsym, "function_symbols": nfunc, "calls": ncalls,
                             "setups": len(call_results), "require_path_forms": nreq}
-    run.cov["binding_A"] = {"behaviours": len(edges), "secure_behaviours": nsec_edges, "actions_replayed": nact}
+    run.cov["binding_A"] = {"behaviours_exported_by_tlc": exported, "behaviours_replayed": len(edges),
+                            "secure_behaviours": nsec_edges, "last_actions_replayed": nact}
     run.cov["bounds"] = {"cfg": cfg, "argument_tuples": len(ARG_TUPLES) + (0 if quick else len(MORE_TUPLES)),
                          "shadow_forms": len(SHADOW_FORMS), "assign_forms": len(ASSIGN_FORMS)}
     run.assumptions += [
